@@ -668,13 +668,17 @@ class Stage:
         if depends_on(expr, self.u):
             raise Exception("Dependency on controls not supported yet for stage.der")
         ode = self._ode()
+        # Quadrature states are states too: their derivative is their integrand
+        xs = vertcat(self.x, self.xq)
         if depends_on(expr,self.t) or nominal_symbols:
-            return jtimes(expr, vertcat(self.x, self.t, *nominal_symbols), vertcat(ode(x=self.x, u=self.u, z=self.z, p=self._pv, t=self.t)["ode"], 1, *der_symbols))
+            res = ode(x=self.x, u=self.u, z=self.z, p=self._pv, t=self.t)
+            return jtimes(expr, vertcat(xs, self.t, *nominal_symbols), vertcat(res["ode"], res["quad"], 1, *der_symbols))
         else:
             if expr in self.states:
-                return jtimes(expr, self.x, ode.call(dict(x=self.x, u=self.u, z=self.z, p=self._pv, t=self.t),True,False)["ode"])
+                res = ode.call(dict(x=self.x, u=self.u, z=self.z, p=self._pv, t=self.t),True,False)
             else:
-                return jtimes(expr, self.x, ode(x=self.x, u=self.u, z=self.z, p=self._pv, t=self.t)["ode"])
+                res = ode(x=self.x, u=self.u, z=self.z, p=self._pv, t=self.t)
+            return jtimes(expr, xs, vertcat(res["ode"], res["quad"]))
 
 
     def integral(self, expr, grid='inf',refine=1):
